@@ -55,7 +55,7 @@ theorem comment_tokens : tokenize docComment = [.start key [], .text [97], .comm
 theorem comment_joined :
     strOf (decodeDoc X0 (.named key) .str (deEvents (tokenize docComment))) = some [97, 98] := by decide
 
-/-! F-xml-3 (`xml-xsi-type`, FIXED by 1dc4ea8): `Grantee$Type` is the attribute `xsi:type` of the `Grantee` start tag
+/-! F-xml-3 (`xml-xsi-type`, FIXED by 680006e): `Grantee$Type` is the attribute `xsi:type` of the `Grantee` start tag
 (Smithy `xmlAttribute`), and the members that hold a `Grantee` declare `xmlns:xsi`. Until the repair s3s read and wrote
 it as a child element `<xsi:type>`. -/
 
